@@ -52,6 +52,8 @@ Definition judge_flat (svg : bool) (prefix value : list Z) (outs : list (list Z)
         (* characters exist only in well-formed UTF-8; on ill-formed input gluing two lines can form a
            new rune (Props/C07.v c07_flatten_keeps_joins), so only no-LF and the model are checked there *)
         if utf8_valid value && negb (bytes_eqb (nonws payload) (nonws value)) then v_specfail "c07-content" (B (nonws payload))
+        (* every input, ill-formed included: the bytes outside white-space encodings (Props/C07.v c07_flatten_keeps_bytes) *)
+        else if negb (bytes_eqb (hard_bytes payload) (hard_bytes value)) then v_specfail "c07-bytes" (B (hard_bytes payload))
         else
           (* strip_lb_fast = strip_lb, strip_lb_svg_fast = strip_lb_svg (Props/C07.v c07_execution_twins) *)
           let m := one_line (if svg then strip_lb_svg_fast value else strip_lb_fast value) in
